@@ -4,12 +4,13 @@ import random
 import common
 from common import Broken, coq_N, coq_bool, coq_list, coq_nat, coq_string
 
-FILES = ["Base/Re.v", "Base/Grammar.v", "Model/ForecastM.v", "Model/ProtocolM.v", "Model/C20Case.v", "Proofs/C19.v", "Proofs/C20.v", "Props/C20.v"]
+FILES = ["Base/Re.v", "Base/Grammar.v", "Model/ForecastM.v", "Model/ProtocolM.v", "Model/C20Case.v", "Proofs/C19.v", "Proofs/C20.v", "Proofs/C20Choose.v", "Props/C20.v"]
 HEADER = ("From Coq Require Import List String NArith Bool Arith.\n"
           "From FV Require Import Base.Re Base.Grammar Model.ForecastM Model.ProtocolM Model.C20Case.\n"
           "Import ListNotations.\nOpen Scope string_scope.\nOpen Scope list_scope.\n")
 BT = "(list (bop * buffer))"
 RT = "(list (string * rhs) * list msg * bool * list (string * list unit_) * list (string * list unit_))"
+XT = "(table * table * nat * list string * option (string * nat))"
 
 
 def obligations(res):
@@ -23,6 +24,8 @@ def obligations(res):
     res.coverage["trusted_base"] = ax or ["Closed under the global context (no axioms)"]
     res.assumptions += [
         "Coq kernel + vm_compute; no axioms",
+        "the race between forecast message types (parse_next_remote_packet) is modelled: C20_choose_longest / C20_choose_none; its per-type parser "
+        "answers are oracle tables filled by the real IterativeParser",
         "PARTIAL: proved are (1) the discipline of the receive buffer (FandangoIO.receive with add_receive / clear_by_party): exactly-once, in-order delivery "
         "per sender for every interleaving -- tied to the code by running the real FandangoIO object on random operation sequences; (2) the meaning of the "
         "monitor applied to recorded runs.  The protocol loop itself (_generate_io, parse_next_remote_packet, PacketSelector) is NOT modelled: real "
@@ -75,6 +78,101 @@ def buffer_worker(args):
         terms.append(coq_list(steps))
         infos.append({"operations": descr})
         res.count(("buffer", tuple(descr)), nontrivial=len(descr) >= 3)
+    return (terms, infos), res.hist, res.counts, res.samples
+
+
+
+# ------------------------------------------------------------------ (1b) the race between forecast message types
+
+RACE_SPEC = ('<start> ::= <Fuzzer:Extern:ping> (<Extern:Fuzzer:a1> | <Extern:Fuzzer:a2> | <Extern:Fuzzer:a3> | <Extern:Fuzzer:a4> | <Extern:Fuzzer:a5>) <Extern:Fuzzer:tail>* <Fuzzer:Extern:bye>\n'
+             '<ping> ::= "ping"\n<a1> ::= "ab"\n<a2> ::= "abcd"\n<a3> ::= "ab" <d>+\n<a4> ::= "x" <d>? "y"\n<a5> ::= r"ab?c*"\n<tail> ::= "c" <d>\n<bye> ::= "bye"\n'
+             '<d> ::= "0" | "1" | "2"\n')
+RACE_STREAMS = ["ab", "abcd", "abc1", "ab12c0", "abcdc1", "ab1", "xy", "x1y", "x1", "a", "abcc", "abq", "q", "abcdq", "ab1c", "acc", "abccd", ""]
+
+
+def race_worker(args):
+    seed, n = args
+    import sys
+    sys.stderr = open("/dev/null", "w")
+    from fandango import Fandango
+    from fandango.errors import FandangoError
+    from fandango.io.navigation.packetforecaster import PacketForecaster
+    from fandango.io.packetparser import parse_next_remote_packet
+    from fandango.language.grammar import ParsingMode
+    from fandango.language.grammar.parser.iterative_parser import IterativeParser
+    from fandango.language.tree import DerivationTree
+    from fandango.language.symbols import NonTerminal
+    from props import c07, c19
+    c07.quiet()
+    res = c07.MiniRes()
+    rng = random.Random(seed * 263 + 5)
+    terms, infos = [], []
+    fan = Fandango(RACE_SPEC + PARTIES, use_stdlib=False, use_cache=False)
+    g = fan.grammar
+    env, _ = g.get_spec_env()
+    io = env["FandangoIO"].instance()
+    fc = PacketForecaster(g)
+    pred0 = fc.predict(DerivationTree(NonTerminal("<start>")))
+    fp = pred0.parties_to_packets["Fuzzer"].nt_to_packet[NonTerminal("<ping>")]
+    hist, _n = c19.mount(g, fp, rng)
+    for _ in range(n):
+        stream = rng.choice(RACE_STREAMS)
+        if rng.random() < 0.3:
+            stream = "".join(rng.choice("abcdxy012") for _ in range(rng.randint(1, 6)))
+        if not stream:
+            continue
+        pred = fc.predict(hist)
+        if "Extern" not in pred.parties_to_packets:
+            res.bump("no_forecast_for_extern")
+            continue
+        cands = [nt.name() for nt in pred.parties_to_packets["Extern"].nt_to_packet]
+        # oracle tables: one incremental parser per forecast type, fed unit by unit (exactly what the race does)
+        complete, alive = {}, {}
+        for nt in cands:
+            p = IterativeParser(g.rules)
+            p.new_parse(start=NonTerminal(nt), mode=ParsingMode.COMPLETE)
+            cl, al, dead = [], [], False
+            for u in stream:
+                if dead:
+                    cl.append(False)
+                    al.append(False)
+                    continue
+                tree, is_c = next(p.consume(u), (None, None))
+                cl.append(tree is not None and bool(is_c))
+                ok = p.can_continue()
+                al.append(bool(ok))
+                dead = not ok
+            complete[nt], alive[nt] = cl, al
+        # the real function on the real buffer, with units of another sender in between
+        io.clear_received_msgs()
+        other = 0
+        for u in stream:
+            if rng.random() < 0.25:
+                io.add_receive("Third", "Fuzzer", "z")
+                other += 1
+            io.add_receive("Extern", "Fuzzer", u)
+        before = sum(1 for s_, r_, m_ in io.get_received_msgs() if s_ == "Extern")
+        try:
+            fpk, tree = common.guarded(lambda: parse_next_remote_packet(g, pred, io), 20)
+            after = sum(1 for s_, r_, m_ in io.get_received_msgs() if s_ == "Extern")
+            third_left = sum(1 for s_, r_, m_ in io.get_received_msgs() if s_ == "Third")
+            real = (tree.symbol.name(), before - after)
+            if third_left != other or str(tree) != stream[: before - after]:
+                real = ("<<buffer or text mismatch>>", before - after)
+        except common.ImplTimeout:
+            res.bump("race_gave_up_20s")
+            continue
+        except FandangoError:
+            real = None
+
+        def tab(t):
+            return coq_list([f"({coq_string(nt)}, {coq_list([coq_bool(b) for b in t[nt]])})" for nt in cands])
+        rterm = "None" if real is None else f"(Some ({coq_string(real[0])}, {coq_nat(real[1])}))"
+        terms.append(f"({tab(complete)}, {tab(alive)}, {coq_nat(len(stream))}, {coq_list([coq_string(c) for c in cands])}, {rterm})")
+        infos.append({"spec": RACE_SPEC, "units_of_extern": stream, "forecast_types": cands, "complete_after_k_units": complete, "can_continue_after_k_units": alive,
+                      "implementation_accepted": real})
+        res.count(("race", stream), nontrivial=len(stream) >= 2)
+        res.bump("race_accepts" if real else "race_rejects")
     return (terms, infos), res.hist, res.counts, res.samples
 
 
@@ -283,11 +381,19 @@ def correspondence(res):
     codes = common.run_case_codes("C20", "buf", HEADER, terms, "c20_buffer", chunk=70, ctype=BT)
     bad = [i for i, v in enumerate(codes) if v != 1]
     ok = len(codes) - len(bad)
+    # the race: 1 s of waiting per case inside the implementation (wait_for_completion_time)
+    n1 = 84 if res.tier == "quick" else 1400
+    terms1, infos1 = c02.parallel(res, race_worker, [(res.seed * 1000 + 100 + w, max(1, n1 // W)) for w in range(W)])
+    codes1 = common.run_case_codes("C20", "race", HEADER, terms1, "c20_choose", chunk=60, ctype=XT)
+    race_bad = [i for i, v in enumerate(codes1) if v != 1]
+    ok += len(codes1) - len(race_bad)
     n2 = 56 if res.tier == "quick" else 1500
     terms2, infos2 = c02.parallel(res, run_worker, [(res.seed * 1000 + 300 + w, max(1, n2 // W)) for w in range(W)])
     idx = [i for i, t in enumerate(terms2) if t is not None]
     codes2 = common.run_case_codes("C20", "run", HEADER, [terms2[i] for i in idx], "c20_run", chunk=40, ctype=RT)
-    res.coverage["rule"] = ("(1) random operation sequences (2-10 of add_receive with str/bytes data of 3 senders to 2 receivers, clear_by_party) on the real FandangoIO "
+    res.coverage["rule"] = ("(1b) the race of parse_next_remote_packet on a grammar with 5 forecast types (proper prefixes of each other, repetitions, a regex) x streams of the sender "
+                            "interleaved with units of another sender: accepted type and number of units removed vs the model fed with per-type tables from the real "
+                            "incremental parser. (1) random operation sequences (2-10 of add_receive with str/bytes data of 3 senders to 2 receivers, clear_by_party) on the real FandangoIO "
                             "object vs the buffer model after every operation. (2) real protocol runs (FuzzingMode.IO) of 4 protocol templates against scripted peers: "
                             "valid replies in random fragmentations (whole / unit-wise / random cuts), early interleaved data of a third party, replies of the wrong "
                             "type, constraint-violating and truncated replies; the yielded trees, send() calls, injected data and errors are judged by the monitor. "
@@ -310,6 +416,19 @@ def correspondence(res):
         else:
             ok += 1
     res.coverage["traces_validated_against_impl"] = ok
+    for i in list(race_bad):
+        acc = infos1[i]["implementation_accepted"]
+        if acc and acc[0] == "<<buffer or text mismatch>>":
+            # concrete failing input: what left the buffer is not the text of the accepted message (or another sender's data was touched)
+            if len(res.violations) < 3:
+                res.violation("the data removed from the receive buffer is not exactly the accepted message", infos1[i])
+            race_bad.remove(i)
+    if race_bad:
+        i = race_bad[0]
+        if codes1[i] is None:
+            raise Broken("evaluation failed (case file)", repr(infos1[i])[:600])
+        raise Broken(f"correspondence: parse_next_remote_packet accepts something else than the model of the race on {len(race_bad)}/{len(codes1)} inputs",
+                     repr(infos1[i]))
     if bad:
         i = bad[0]
         raise Broken(f"correspondence: the receive buffer differs from the model on {len(bad)}/{len(codes)} operation sequences (first difference at operation {codes[i] - 10 if codes[i] else '?'})",
